@@ -102,7 +102,7 @@ def check_infra(ctx, P):
     compiler / full fences really are fences"""
     from rules import COMPILER_FENCE_CALLS, FULL_FENCE_CALLS
     g = P.fn("fiber_manager_get")
-    o = ctx.ob("infra.tls", g, "fiber_manager_get() returns a thread-local variable (one manager per kernel thread)",
+    o = ctx.ob("infra.tls", g, "fiber_manager_get() returns a thread-local variable (one manager per kernel thread) and does nothing else",
                "a manager pointer shared by all kernel threads makes every thread push onto one deque and consume one set of deferred-publication slots")
     bad = None
     rets = [r for r in g.returns() if r.kids]
@@ -114,6 +114,10 @@ def check_infra(ctx, P):
             bad = bad or ("returns `%s`, not a thread-local variable" % r.kids[0].text, r)
         elif not v.tls:
             bad = bad or ("`%s` is not declared __thread / _Thread_local" % v.name, r)
+    side = [c for c in g.calls() if c.callee != "__assert_fail" and not (c.callee or "").startswith("__builtin")] + [s_.node for s_ in g.stores()]
+    if side:
+        bad = bad or ("the accessor has a side effect (`%s`): a thread the runtime did not start must get NULL, not a manager of its own making "
+                      "(it would act as a second owner of some kernel thread's run queue)" % side[0].text[:60], side[0])
     o.check(bad is None, "thread-local", bad[0] if bad else None, site=bad[1] if bad else None, construct="manager pointer not thread-local")
     o = ctx.ob("infra.fences", "", "write_barrier / load_load_barrier / cpu_relax are compiler barriers (volatile asm with a memory clobber); store_load_barrier is a "
                "full fence (locked RMW or mfence, memory clobber)",
@@ -424,7 +428,10 @@ def check_wait_sites(ctx, P):
                     w = fn.dominated_by(s.node, nodeset(locks))
                     if w is not None:
                         bad = bad or ("WAITING is stored without the lock held", s.node, w, "WAITING outside lock")
+            actions = [s.node] + [x.node for x in slotst] + locks
             for y in ys:
+                if not any(fn.find_path(a_, lambda n, y=y: n is y) is not None for a_ in actions):
+                    continue      # a plain yield on a path that takes no lock, registers nothing and stores no state (e.g. a zero-length sleep)
                 for need, what in ((nodeset([s.node]), "the WAITING store"), (nodeset([x.node for x in slotst]), "the deferred-unlock slot")):
                     w = fn.dominated_by(y, need)
                     if w is not None:
